@@ -7,6 +7,8 @@ Record tables := {
   tb_b64enc : list (list N * str);
   tb_dt : list (str * option str);
   tb_date : list (str * option str);
+  tb_uuid : list (str * option str);
+  tb_time : list (str * option str);
   tb_int : list (str * option Z);
   tb_float : list (str * option Z);
   tb_str : list (json * str) }.
@@ -40,7 +42,7 @@ Definition c16_obs_eqb (a b : c16_obs) : bool :=
   match a, b with
   | ObConv x, ObConv y => list_eqb obs_eqb x y
   | ObSer (SOk x), ObSer (SOk y) => json_eqb x y
-  | ObSer SFuel, ObSer SFuel | ObSer SLeak, ObSer SLeak => true
+  | ObSer SFuel, ObSer SFuel => true
   | _, _ => false
   end.
 
@@ -59,7 +61,7 @@ Definition model_obs (c : c16_in) : c16_obs :=
   | InConv tb ct ops =>
       ObConv (run_ops (look (tb_b64dec tb))
                       (fun b => match alookup b (tb_b64enc tb) with Some s => s | None => [] end)
-                      (look (tb_dt tb)) (look (tb_date tb)) (look (tb_int tb)) (look (tb_float tb))
+                      (look (tb_dt tb)) (look (tb_date tb)) (look (tb_uuid tb)) (look (tb_time tb)) (look (tb_int tb)) (look (tb_float tb))
                       (look_str (tb_str tb)) ct st0 ops)
   | InSer h r => ObSer (serialize_top h r)
   end.
@@ -78,7 +80,7 @@ Definition op_reach_closed (ct : list cls) (o : op) : bool :=
 Definition guards (c : c16_in) : list bool :=
   match c with
   | InConv _ ct ops => [true; true; forallb (op_reach_closed ct) ops]
-  | InSer h r => [guard_F16a h r; guard_F16d h r; true]
+  | InSer h r => [guard_F16a h r; true; true]
   end.
 
 Definition code16 (c : c16_in * c16_obs) : N :=
